@@ -207,6 +207,7 @@ def replay_tier(pid, cfg, binaries, res, outdir):
                 return
         env = env_base()
         env["VERIF_REPLAY_LIST"] = json.dumps([i[0] for i in its])
+        env["VERIF_NO_KNOWN"] = "1"  # replays are evaluated strictly: no steering, no tolerated known symptoms
         env["VERIF_OUT"] = outdir
         env["VERIF_PROP"] = pid
         p = subprocess.run([binary, "-test.run", "^TestReplay$", "-test.v", "-test.timeout", "600s"], cwd=module_dir(mod), env=env,
@@ -452,6 +453,7 @@ def replay(pid, path):
         return 2
     env = env_base()
     env["VERIF_REPLAY"] = os.path.abspath(path)
+    env["VERIF_NO_KNOWN"] = "1"
     p = subprocess.run([b, "-test.run", "^TestReplay$", "-test.v"], cwd=module_dir(mod), env=env, stdout=subprocess.PIPE,
                        stderr=subprocess.STDOUT, text=True)
     os.remove(b)
